@@ -59,6 +59,15 @@ def _list_items(cp):
     eam_dens_items = _list_eam_dens(cp)
     items.extend(eam_dens_items)
 
+  # [Table-Form:NAME] sections and [Variables] (the parser's default section) are neither
+  # 'parsed' nor 'orphan' sections but their items belong to the file just the same.
+  raw_cp = cp.raw_config_parser
+  table_sections = [s for s in raw_cp.sections() if s.startswith("Table-Form:")]
+  items.extend(_parse_raw(cp, table_sections))
+
+  if raw_cp.defaults():
+    items.extend(_list_section(cp, raw_cp.default_section))
+
   orphan_sections = cp.orphan_sections
   raw_items = _parse_raw(cp, orphan_sections)
   items.extend(raw_items)
@@ -78,8 +87,19 @@ def _list_plot_item_labels(cp):
   outlist = [k for (k,v) in items]
   return outlist  
 
+def split_item_label(label):
+  """Split an item label of the form SECTION_NAME:KEY into section name and key.
+
+  The name of a [Table-Form:NAME] section contains a colon itself, its items
+  are labelled Table-Form:NAME:KEY."""
+  section, key = label.split(":",1)
+  if section == "Table-Form" and ":" in key.split("=", 1)[0]:
+    name, key = key.split(":", 1)
+    section = "{}:{}".format(section, name)
+  return section, key
+
 def _item_value(cp, key):
-  section, section_key = key.split(":",1)
+  section, section_key = split_item_label(key)
   v = cp.raw_config_parser[section][section_key]
   return v 
 
